@@ -7,3 +7,9 @@ Lemma entry_poll_present : gen_entry_poll = true.
 Proof. vm_compute. reflexivity. Qed.
 Lemma call_poll_present : gen_call_poll = true.
 Proof. vm_compute. reflexivity. Qed.
+
+(** the whole error-flag mechanism around [eval], arm by arm, is the one Model/FlagEval.v transcribes
+    (Spec/FlagMechanism.v): every sub-evaluation, poll, report, call, output and store, in source order *)
+From Borno Require Import FlagMechanism.
+Lemma arm_trace_matches : gen_arm_trace = arm_trace_expected.
+Proof. vm_compute. reflexivity. Qed.
